@@ -82,7 +82,7 @@ def execute(plan):
 
     # uninterrupted references R_j = run(maxiter=j)
     R = {}
-    for j in range(1, K + 2):
+    for j in range(1, K + 3):
         c = dict(cfg)
         c["maxiter"] = j
         a = Act(problem, c).run()
@@ -93,6 +93,7 @@ def execute(plan):
             break
         R[j] = a
         stats["probe.ls_none"] += sum(1 for t in a.ls_log if t[2] is None) if j == K + 1 else 0
+        stats["probe.memory_reset_in_reference"] += sum(1 for i, t in enumerate(a.ls_log) if t[2] is None and i + 1 < len(a.ls_log)) if j == K + 1 else 0
         if not _valid_stop(a.result, j):
             break
     if K + 1 in R:
@@ -109,6 +110,7 @@ def execute(plan):
             continue
         ck = snapshot(R[k].result)
         blob = Store.dumps(R[k].result)
+        newest_is_x = bool(R[k].up_log) and bool(R[k].up_log[-1][1])
         npairs = ck["sk"].shape[0]
         stats["fault.stop_restart"] += 1
         # (1) zero-iteration restart
@@ -136,7 +138,7 @@ def execute(plan):
         ref = R.get(k + 1)
         if ref is not None and ref.result is not None and ref.result.nfev > R[k].result.nfev:
             x_ref = np.asarray(ref.result.x, dtype=float)
-            verdict, info, act = compare_restart(problem, cfg, blob, x_ref, k + 1, plan["problem"]["pseed"] + k, stats)
+            verdict, info, act = compare_restart(problem, cfg, blob, x_ref, k + 1, plan["problem"]["pseed"] + k, stats, ref_act=ref)
             stats["or.next_iterate"] += 1
             if verdict == "raised":
                 add("restart.raised", k, {"kind": "one", **info})
@@ -145,7 +147,33 @@ def execute(plan):
             elif verdict == "ok":
                 if act.result.nit != ref.result.nit:
                     add("nit_continues", k, {"restart_nit": int(act.result.nit), "reference_nit": int(ref.result.nit)})
+                # the memory after the resumed iteration is the uninterrupted run's memory
+                n_res = int(np.asarray(act.result.hess_inv.sk).shape[0]) if np.asarray(act.result.hess_inv.sk).size else 0
+                n_ref = int(np.asarray(ref.result.hess_inv.sk).shape[0]) if np.asarray(ref.result.hess_inv.sk).size else 0
+                stats["or.memory_after_resume"] += 1 if newest_is_x else 0
+                if not newest_is_x:
+                    # the last update before the split was rejected: the solver pairs the next iterate with
+                    # an older retained point that the checkpoint format does not carry; only the next
+                    # iterate (which depends on the matrix alone) is comparable, as the property states
+                    stats["nj.rejected_update_before_split"] += 1
+                elif n_res != n_ref:
+                    if _knife_edge_newest(snapshot(act.result), cfg) or _knife_edge_newest(snapshot(ref.result), cfg) or _knife_edge_newest(ck, cfg):
+                        stats["nj.knife_edge"] += 1
+                    else:
+                        add("memory_after_resumed_iteration", k, {"pairs_restart": n_res, "pairs_uninterrupted": n_ref})
             key(k, npairs, "one", verdict)
+            # two resumed iterations: the continuation, not only its first step
+            ref2 = R.get(k + 2)
+            if verdict == "ok" and newest_is_x and ref2 is not None and ref2.result is not None and ref2.result.nfev > ref.result.nfev:
+                v2, info2, act2 = compare_restart(
+                    problem, cfg, blob, np.asarray(ref2.result.x, dtype=float), k + 2, plan["problem"]["pseed"] + 7 * k, stats, ref_act=ref2
+                )
+                stats["or.second_iterate"] += 1
+                if v2 == "raised":
+                    add("restart.raised", k, {"kind": "two", **info2})
+                elif v2 == "fail":
+                    add("second_iterate", k, info2)
+                key(k, npairs, "two", v2)
         else:
             stats["nj.no_next_iterate"] += 1
         # (3) reduced maxcor
@@ -195,7 +223,7 @@ def execute(plan):
             ck2 = snapshot(seg.result)
             if cont.result is not None and cont.result.nfev > seg.result.nfev:
                 verdict, info, act = compare_restart(
-                    problem, cfg, blob2, np.asarray(cont.result.x, dtype=float), k2 + 1, plan["chain_seed"] + k2, stats
+                    problem, cfg, blob2, np.asarray(cont.result.x, dtype=float), k2 + 1, plan["chain_seed"] + k2, stats, ref_act=cont
                 )
                 stats["or.chain_next_iterate"] += 1
                 if verdict == "raised":
